@@ -13,6 +13,7 @@ import (
 	"encoding/json"
 	"errors"
 	"fmt"
+	"sync"
 
 	"github.com/google/tink/go/aead"
 	"github.com/google/tink/go/keyset"
@@ -54,6 +55,8 @@ type LocalKMS struct {
 	primaryKeyURI     string
 	store             kmsapi.Store
 	primaryKeyEnvAEAD *aead.KMSEnvelopeAEAD
+	// writeLock makes "is the key ID free? then store" one step for the users of this KMS instance.
+	writeLock sync.Mutex
 }
 
 // New will create a new (local) KMS service.
@@ -197,10 +200,17 @@ func (l *LocalKMS) storeKeySet(kh *keyset.Handle, kt kmsapi.KeyType) (string, er
 	// asymmetric keys are JWK thumbprints of the public key, base64URL encoded stored in kid.
 	// symmetric keys will have a randomly generated key ID (where kid is empty)
 	if kid != "" {
-		return writeToStore(l.store, buf, kmsapi.WithKeyID(kid))
+		return l.writeToStore(buf, kmsapi.WithKeyID(kid))
 	}
 
-	return writeToStore(l.store, buf)
+	return l.writeToStore(buf)
+}
+
+func (l *LocalKMS) writeToStore(buf *bytes.Buffer, opts ...kmsapi.PrivateKeyOpts) (string, error) {
+	l.writeLock.Lock()
+	defer l.writeLock.Unlock()
+
+	return writeToStore(l.store, buf, opts...)
 }
 
 func writeToStore(store kmsapi.Store, buf *bytes.Buffer, opts ...kmsapi.PrivateKeyOpts) (string, error) {
